@@ -32,6 +32,17 @@ Proof.
   exact (conj (calls_ok m maxq acts) (conj (attempted_prefix m maxq acts) (whole m maxq acts))).
 Qed.
 
+(* All or nothing per call: a call that returned nil has all its frames accepted; a call refused because the connection
+   is closed or because the bounded queue has no room for the whole message (the check WriteMessage makes before it
+   queues the first fragment; writeFrame's per-frame check can then never fire inside the call) has NONE accepted - so
+   no unfinished message is ever left on the wire by a refusal.  Only a socket error in direct mode ends a call with a
+   proper prefix. *)
+Theorem c14_all_or_none m maxq acts :
+  Forall (fun c => let '(fs, acc, r) := c in
+                   (r = ROk -> acc = fs) /\ (r = RClosed -> acc = []) /\ (r = RFull -> acc = []))
+         (calls (run m maxq acts)).
+Proof. exact (all_or_none m maxq acts). Qed.
+
 (* Nothing lost, nothing duplicated while the connection is open: with no drainer alive the wire IS the accepted
    frame sequence; and from every state in which no call holds the mutex the drainer's own steps (socket accepting)
    reach such a state without accepting or finishing anything else - no accepted frame is stranded in the queue. *)
@@ -109,10 +120,10 @@ Example c14_write_nonvacuous :
   calls s = [([1;2;3],[1;2;3],ROk); ([4;5],[4;5],ROk); ([6],[6],ROk); ([7;8],[],RClosed)].
 Proof. vm_compute. repeat split. Qed.
 
-(* a bounded queue that fills up in the middle of a message: the call returns RFull after two of three frames *)
+(* a bounded queue without room for the whole message: refused before anything is queued; a message that fits is taken *)
 Example c14_full_nonvacuous :
-  let s := run Queued 2 [Begin [1;2;3]; Frame true; Frame true; Frame true] in
-  calls s = [([1;2;3],[1;2],RFull)] /\ holder s = None.
+  let s := run Queued 2 [Begin [1;2;3]; Frame true; Begin [4;5]; Frame true; Frame true; Begin [6]] in
+  calls s = [([1;2;3],[],RFull); ([4;5],[4;5],ROk); ([6],[],RFull)] /\ holder s = None /\ accepted s = [4;5].
 Proof. vm_compute. repeat split. Qed.
 
 (* upgrade, two messages, the second dispatched while the first runs, connection closed while it runs, a third message
@@ -131,6 +142,7 @@ Example c14_order_nonvacuous :
 Proof. vm_compute. repeat split; discriminate. Qed.
 
 Print Assumptions c14_whole.
+Print Assumptions c14_all_or_none.
 Print Assumptions c14_no_loss_no_dup.
 Print Assumptions c14_whole_messages.
 Print Assumptions c14_single_drainer.
